@@ -902,6 +902,7 @@ def c17(tier, replay=None):
                        if runrecs and 'events' in runrecs[-1] else None}, limit=5)
     _trace_rejections(report, 'C17', chosen, results)
     _c17_created_models_payload(report, tier, nontrivial)
+    _c17_handover_signals(report, tier, nontrivial)
     fired, planned = _c17_every_statement(report, tier)
     report.notes.append('all-statement fault enumeration: %d faults fired of %d planned' % (fired, planned))
     report.coverage['distinct_nontrivial'] = len(nontrivial) + fired
@@ -1346,6 +1347,113 @@ def _c17_created_models_payload(report, tier, nontrivial):
             if sorted(named) != sorted(created):
                 report.fail({'class': 'creating-models-payload-differs-from-created-tables'},
                             dict(where, named=sorted(named), created=sorted(created)))
+
+
+def _c17_handover_signals(report, tier, nontrivial):
+    """The signals of upgrades that hand an app over to migrations (Handover.tla's behaviours:
+    fresh / legacy table / after j evolutions / already on migrations, with companion apps):
+    every applying_* / creating_models is followed by its counterpart in a run that succeeds, a
+    run emits evolving at most once and exactly one terminal signal, and every migration
+    Handover.tla says is run or taken over (soft-applied initial migration of a table that is
+    already there) is announced as a pair."""
+    import random
+    from concurrent.futures import ThreadPoolExecutor
+    from .common import seed
+    from .engines import handover as H
+    from .tlc import run_tlc, require_ok, write_cfg
+    cfg = write_cfg('MC_Handover_c17.cfg', '''
+SPECIFICATION Spec
+CONSTANTS
+  MaxK = 1
+  M = 3
+  EmitRecords = TRUE
+CONSTRAINT Constraint
+INVARIANT SoftOnlyLegacyInitial
+INVARIANT RerunIsNoop
+''')
+    res = require_ok(run_tlc('Handover', cfg, workers=4, timeout=3000), 'Handover.tla')
+    report.add_tlc('Handover MaxK=1 M=3 (signal pairing of handover upgrades)', res.stats())
+    by_cfg = {}
+    for r in res.records:
+        if r.get('failFirst') or r.get('premarked'):
+            continue
+        key = json_key([r['K'], r['S'], r['start'], sorted(r['companions'])], 0)
+        by_cfg.setdefault(key, {})[r['run']] = r
+    items = sorted(by_cfg.items())
+    rng = random.Random(seed() * 577 + 17)
+    rng.shuffle(items)
+    limit = 16 if tier == 'quick' else 80
+    # every start kind represented, the legacy table first
+    items.sort(key=lambda kv: (kv[1][1]['start'][0] != 'legacy', -len(kv[1][1]['companions'])))
+    kinds = {}
+    for kv in items:
+        kinds.setdefault(kv[1][1]['start'][0], []).append(kv)
+    chosen = []
+    while len(chosen) < limit and any(kinds.values()):
+        for k in sorted(kinds, key=lambda x: x != 'legacy'):
+            if kinds[k] and len(chosen) < limit:
+                chosen.append(kinds[k].pop(0))
+
+    def one(ikv):
+        i, (key, runs) = ikv
+        r1 = runs[1]
+        return H.replay({'K': r1['K'], 'S': r1['S'], 'start': r1['start'], 'companions': r1['companions']},
+                        idx=i, M=3)
+    with ThreadPoolExecutor(16) as ex:
+        observations = list(ex.map(one, enumerate(chosen)))
+    opening = {'applied_evolution': 'applying_evolution', 'created_models': 'creating_models',
+               'applied_migration': 'applying_migration'}
+    for (key, runs), obs in zip(chosen, observations):
+        r1 = runs[1]
+        where = {'family': 'handover', 'K': r1['K'], 'mark_applied_prefix': r1['S'], 'start': r1['start'],
+                 'companions': sorted(r1['companions']), 'driver': obs.get('driver')}
+        if obs['errors']:
+            report.notes.append('C17 handover family: start state could not be built: %r' % (obs['errors'][:1],))
+            continue
+        for runno in (1, 2):
+            o = obs.get('run%d' % runno)
+            if o is None:
+                continue
+            report.coverage['evaluations'] += 1
+            report.coverage['traces_validated_against_impl'] += 1
+            sigs = o['all_signals']
+            detail = dict(where, run=runno, outcome=o['outcome'], signals=sigs)
+            fp = {'family': 'handover', 'start': r1['start'][0]}
+            names = [x[0] for x in sigs]
+            if names.count('evolving') > 1:
+                report.fail(dict(fp, **{'class': 'evolving-twice'}), detail)
+            if names.count('evolving') and names.count('evolved') + names.count('evolving_failed') != 1:
+                report.fail(dict(fp, **{'class': 'terminal-signal-count'}), detail)
+            if ('evolved' in names) != (o['outcome'] == 'ok' and 'evolving' in names):
+                report.fail(dict(fp, **{'class': 'evolved-vs-return'}), detail)
+            open_sig = []
+            for x in sigs:
+                if x[0] in opening.values():
+                    if open_sig and not (x[0] == 'creating_models' and open_sig[-1][0] == 'creating_models'):
+                        report.fail(dict(fp, **{'class': 'nested-or-unclosed-signal', 'signal': open_sig[-1][0]}),
+                                    dict(detail, at=x))
+                        open_sig = []
+                    open_sig.append(x)
+                elif x[0] in opening:
+                    match = [y for y in open_sig if y[0] == opening[x[0]] and y[1:] == x[1:]]
+                    if not match:
+                        report.fail(dict(fp, **{'class': 'counterpart-without-opening', 'signal': x[0]}),
+                                    dict(detail, at=x))
+                    else:
+                        open_sig.remove(match[0])
+            if open_sig and o['outcome'] == 'ok':
+                report.fail(dict(fp, **{'class': 'unpaired-signal-on-success', 'signal': open_sig[0][0]}),
+                            dict(detail, unpaired=open_sig))
+            exp = runs.get(runno)
+            if exp is not None and o['outcome'] == 'ok':
+                want = [H.mig_name(n) for n in list(exp.get('soft') or []) + list(exp['migExecuted'])]
+                closed = [x[2] for x in sigs if x[0] == 'applied_migration' and x[1] == 'shop']
+                if closed != want:
+                    report.fail(dict(fp, **{'class': 'applied-migration-signals-differ-from-migrations-applied',
+                                            'soft_applied_initial': bool(exp.get('soft'))}),
+                                dict(detail, announced_as_applied=closed, applied_per_spec=want))
+                if exp.get('soft') or exp['migExecuted']:
+                    nontrivial.add(('handover', key, runno))
 
 
 def _c17_every_statement(report, tier):
@@ -2470,18 +2578,28 @@ def c15(tier, replay=None):
     from .tlc import run_tlc, require_ok, write_cfg
     report = Report('C15', tier)
     maxops = 4 if tier == 'quick' else 5
-    cfg = write_cfg('MC_Purge.cfg', '''
+    body = '''
 SPECIFICATION Spec
 CONSTANTS
   MaxOps = %d
-  EmitRecords = TRUE
+  EmitRecords = %s
+  WithFaults = TRUE
+  PurgeAtomic = %s
   PurgeRemovesAppSig = TRUE
 CONSTRAINT Constraint
 INVARIANT NothingLiveDropped
+INVARIANT SigForgetsOnlyDroppedApps
 PROPERTY NoPurgeKeepsEverything
 PROPERTY PurgeDropsExactlyOwned
 PROPERTY SigMatchesAfterPurge
-''' % maxops)
+PROPERTY FailedPurgeChangesNothing
+'''
+    # the design: a failing purge changes nothing
+    dres = require_ok(run_tlc('Purge', write_cfg('MC_Purge_design.cfg', body % (maxops, 'FALSE', 'TRUE')),
+                              workers=8, timeout=3000), 'Purge.tla (design)')
+    report.add_tlc('Purge design (PurgeAtomic) MaxOps=%d' % maxops, dres.stats())
+    # the code as it is: one transaction per purged app, signature saved at the end
+    cfg = write_cfg('MC_Purge.cfg', body % (maxops, 'TRUE', 'FALSE'))
     res = require_ok(run_tlc('Purge', cfg, workers=8, timeout=3000), 'Purge.tla')
     report.add_tlc('Purge MaxOps=%d (all relation subsets)' % maxops, res.stats())
     recs = res.records
@@ -2501,20 +2619,27 @@ PROPERTY SigMatchesAfterPurge
     # concern one app), so that rare shapes are replayed as well
     by_feat = {}
     for r in full:
-        shape = tuple((op['op'], op.get('purge')) for op in r['hist'])
+        shape = tuple((op['op'], (op.get('purge'), bool(op.get('partial'))) if op['op'] == 'evolve' else None)
+                      for op in r['hist'])
         one_app = len(set(op.get('app') for op in r['hist'] if op.get('app'))) == 1
         by_feat.setdefault((shape, one_app), []).append(r)
     chosen = []
-    while len(chosen) < limit and any(by_feat.values()):
-        for k in sorted(by_feat, key=repr):
-            if by_feat[k] and len(chosen) < limit:
-                chosen.append(by_feat[k].pop())
+    # a third of the budget for histories with a failing purge (fault), the rest for the others
+    def _faulty(shape_key):
+        return any(o == 'tamper' for o, _ in shape_key[0])
+    for want_fault, quota in ((True, limit // 3), (False, limit)):
+        keys = [k for k in sorted(by_feat, key=repr) if _faulty(k) == want_fault]
+        while len(chosen) < quota and any(by_feat[k] for k in keys):
+            for k in keys:
+                if by_feat[k] and len(chosen) < quota:
+                    chosen.append(by_feat[k].pop())
     with ThreadPoolExecutor(16) as ex:
         observations = list(ex.map(lambda r: P.replay(r, expected), chosen))
     nontrivial = set()
+    faulted = 0
     for rec, obs in zip(chosen, observations):
         report.coverage['evaluations'] += 1
-        label = ' '.join('%s(%s)' % (op['op'], op.get('app') or op.get('purge'))
+        label = ' '.join('%s(%s)' % (op['op'], op.get('app') or op.get('table') or op.get('purge'))
                          + (('.' + op['model']) if op.get('model') else '') for op in rec['hist'])
         where = {'relations': sorted(rec['feats']), 'history': label}
         if obs['errors']:
@@ -2527,7 +2652,19 @@ PROPERTY SigMatchesAfterPurge
                           outcome=st['outcome'], error=st['error'], statements=st['statements'][:8],
                           tables=st['tables'], signature=st['sig'], expected=exp)
             refused = bool(rec['hist'][st['index']].get('refused'))
-            if st['outcome'] != 'ok':
+            must_fail = bool(rec['hist'][st['index']].get('failed'))
+            if must_fail:
+                faulted += 1
+                if st['outcome'] == 'ok':
+                    report.spec_drift('Purge.tla: the purge has to fail on the table dropped by hand, it ran: %s' % label)
+                # the property's own oracle for a purge that failed: nothing changed
+                gone = sorted(set(st['tables_before']) - set(st['tables']))
+                if gone:
+                    partial = rec['hist'][st['index']].get('partial') or []
+                    report.fail({'class': 'failed-purge-dropped-tables',
+                                 'spec_hazard': 'earlier-stale-app-purged-in-its-own-transaction' if partial else None},
+                                dict(detail, dropped_although_the_purge_failed=gone, apps_purged_before_the_failure=partial))
+            elif st['outcome'] != 'ok':
                 report.fail({'class': 'upgrade-failed', 'purge': st['purge'], 'driver': st['driver'],
                              'spec_hazard': 'referenced-model-deleted-before-referrer' if refused else None,
                              'error': (st['error'] or '').split('.')[0][:60]}, detail)
@@ -2552,7 +2689,7 @@ PROPERTY SigMatchesAfterPurge
                 report.fail({'class': 'surviving-table-changed', 'purge': st['purge']},
                             dict(detail, changed=st['changed_survivors']))
             if st['sig'] != exp['sig']:
-                report.fail({'class': 'signature-entries-differ', 'purge': st['purge'],
+                report.fail({'class': 'signature-entries-differ', 'purge': st['purge'], 'after_failed_purge': must_fail,
                              'stale_app_kept': sorted(set(st['sig']) - set(exp['sig']))},
                             detail)
         report.sample({'relations': sorted(rec['feats']), 'history': label,
@@ -2568,7 +2705,10 @@ PROPERTY SigMatchesAfterPurge
         'project with rows in every table (incl. many-to-many tables), alternating `evolve --execute [--purge]` '
         'and the Evolver API; after every upgrade the table set, the schema and rows of surviving tables and the '
         'stored signature (app -> models) are compared with the specification. Non-trivial = an upgrade that '
-        'follows at least one uninstall / model drop.' % (maxops, len(chosen), len(full)))
+        'follows at least one uninstall / model drop. Fault: one table of a stale app is dropped by hand '
+        '(Tamper), the purge then fails on its DROP TABLE and must leave tables and stored signature as they '
+        'were (FailedPurgeChangesNothing, SigForgetsOnlyDroppedApps), so that after Repair the purge can be '
+        'run again: %d such failing purges replayed.' % (maxops, len(chosen), len(full), faulted))
     report.assumptions += ['Django refuses relations into an uninstalled app, so uninstalling p carries an '
                            'evolution of r deleting F.a / F.many in the same upgrade']
     return report.finish()
@@ -2699,6 +2839,7 @@ INVARIANT SignatureListsRecorded
 INVARIANT SchemaComplete
 INVARIANT NoEvolutionSqlOnceOnMigrations
 INVARIANT RerunIsNoop
+INVARIANT SoftOnlyLegacyInitial
 ''' % (maxk, M))
     res = require_ok(run_tlc('Handover', cfg, workers=4, timeout=3000), 'Handover.tla')
     report.add_tlc('Handover MaxK=%d M=%d (all start states, prefixes, companions)' % (maxk, M), res.stats())
@@ -2762,7 +2903,11 @@ INVARIANT RerunIsNoop
             # the move itself carries no SQL: it is announced only along with other evolutions
             exp_evo = [label_of(l) for l in exp['evoExecuted'] if l[0] != 'e_move']
             o_evo = [l for l in o['evo_executed'] if l != 'e_move']
-            exp_mig = [H.mig_name(n) for n in exp['migExecuted']]
+            exp_soft = [H.mig_name(n) for n in (exp.get('soft') or [])]
+            # announced = taken over as they are (soft) + run
+            exp_mig = exp_soft + [H.mig_name(n) for n in exp['migExecuted']]
+            if exp_soft and any('CREATE TABLE "shop_item"' in st for st in o['statements']):
+                report.fail(dict(fp, **{'class': 'existing-table-created-again'}), detail)
             exp_rec = sorted(label_of(l) for l in exp['evoRecorded'])
             if o['evo_recorded'] != exp_rec:
                 report.fail(dict(fp, **{'class': 'evolutions-recorded-differ',
